@@ -227,3 +227,16 @@ pub proof fn lemma_insert_branch<P: Prefix, T>(m0: PrefixMap<P, T>, m1: PrefixMa
         }
     }
 }
+
+/// [C01] `collect()` is the abstract map after inserting the items one after the other (a later duplicate wins)
+pub open spec fn fold_ins<P: Prefix, T>(m: IMap<Seq<bool>, (P, T)>, s: Seq<(P, T)>) -> IMap<Seq<bool>, (P, T)>
+    decreases s.len()
+{
+    if s.len() == 0 { m } else { fold_ins(m.insert(s[0].0.bits(), s[0]), s.skip(1)) }
+}
+
+pub open spec fn fold_ins_set<P: Prefix>(m: IMap<Seq<bool>, (P, ())>, s: Seq<P>) -> IMap<Seq<bool>, (P, ())>
+    decreases s.len()
+{
+    if s.len() == 0 { m } else { fold_ins_set(m.insert(s[0].bits(), (s[0], ())), s.skip(1)) }
+}
